@@ -10,7 +10,9 @@ import (
 	"verif/engine/evid"
 	"verif/refenc"
 
+	gio "github.com/whatap/golib/io"
 	"github.com/whatap/golib/lang/pack"
+	"github.com/whatap/golib/util/hash"
 )
 
 // mapConf is a minimal config.Config for ApplyConfig.
@@ -131,4 +133,61 @@ func licenceHistories(c *evid.Ctx, depth int, evals, nontriv *int64) {
 		rec(0, l)
 	}
 	c.Count("licence_histories", n)
+}
+
+// headerHelper: DataOutputX.WriteOneWayHeader is the exported way to turn "pack type + pack body" into
+// a one-way frame (the client builds the same frame by hand): for every project code and licence of
+// the alphabets the helper's bytes must equal the reference frame, and the stream must report the
+// number of bytes it now holds.
+func headerHelper(c *evid.Ctx, lics []string, pcodes []int64, evals, nontriv *int64) {
+	for _, lic := range lics {
+		for _, pc := range pcodes {
+			atomic.AddInt64(evals, 1)
+			atomic.AddInt64(nontriv, 1)
+			t := pack.NewTextPack()
+			t.Pcode = pc
+			t.AddText(pack.TextRec{Div: 2, Hash: 3, Text: "t"})
+			payload := refPack(t)
+			func() {
+				defer func() {
+					if r := recover(); r != nil {
+						c.Violation("C05:header-helper:panic", fmt.Sprintf("WriteOneWayHeader(pcode %d): %v", pc, r), nil)
+					}
+				}()
+				out := gio.NewDataOutputX()
+				out.WriteBytes(payload)
+				out.WriteOneWayHeader(10, 0, pc, hash.Hash64Str(lic))
+				got := out.ToByteArray()
+				want := refenc.Frame(pc, lic, payload)
+				if !bytes.Equal(got, want) {
+					c.Violation("C05:header-helper:bytes", fmt.Sprintf("WriteOneWayHeader(10, 0, %d, H64(%q)) around a %d-byte message: bytes %x… differ from the reference frame %x… at byte %d", pc, clipS(lic), len(payload), clip(got), clip(want), firstDiff(got, want)), nil)
+				}
+				if out.Size() != len(got) {
+					c.Violation("C05:header-helper:size", fmt.Sprintf("after WriteOneWayHeader the stream holds %d bytes but Size() reports %d", len(got), out.Size()), nil)
+				}
+				// the two sibling helpers: WriteHeader (same layout) and WriteSecureHeader (object id and
+				// transfer key instead of the licence hash)
+				o2 := gio.NewDataOutputX()
+				o2.WriteBytes(payload)
+				o2.WriteHeader(10, 0, pc, hash.Hash64Str(lic))
+				if g2 := o2.ToByteArray(); !bytes.Equal(g2, want) || o2.Size() != len(g2) {
+					c.Violation("C05:header-helper:WriteHeader", fmt.Sprintf("WriteHeader(10, 0, %d, H64(%q)): %d bytes (Size() %d), reference frame %d bytes, first difference at %d", pc, clipS(lic), len(g2), o2.Size(), len(want), firstDiff(g2, want)), nil)
+				}
+				o3 := gio.NewDataOutputX()
+				o3.WriteBytes(payload)
+				o3.WriteSecureHeader(10, 0, pc, 77, -5)
+				var sec refenc.B
+				sec.U8(10)
+				sec.U8(0)
+				sec.I64(pc)
+				sec.I32(77)
+				sec.I32(-5)
+				sec.I32(int32(len(payload)))
+				sec = append(sec, payload...)
+				if g3 := o3.ToByteArray(); !bytes.Equal(g3, sec) || o3.Size() != len(g3) {
+					c.Violation("C05:header-helper:WriteSecureHeader", fmt.Sprintf("WriteSecureHeader(10, 0, %d, 77, -5): %d bytes (Size() %d), reference %d bytes, first difference at %d", pc, len(g3), o3.Size(), len(sec), firstDiff(g3, sec)), nil)
+				}
+			}()
+		}
+	}
 }
